@@ -626,6 +626,13 @@ func runWire(c Case) kit.Outcome {
 			opens++
 		}
 	}
+	if c.Drop < 0 {
+		// the acknowledgement of an open precedes the start of its handler: wait for the starts
+		dl := time.Now().Add(bound)
+		for int(atomic.LoadInt64(&streamStarts)) < opens && time.Now().Before(dl) {
+			time.Sleep(100 * time.Microsecond)
+		}
+	}
 	if got := int(atomic.LoadInt64(&streamStarts)); got > opens || (c.Drop < 0 && got != opens) {
 		return kit.Fail("stream-handler-count", "%d stream opens were sent but the stream handler was invoked %d times", opens, got)
 	}
